@@ -316,6 +316,12 @@ def run_impl(spec, cfg, mode, stub=None):
         inplace_edit(model, rs)
         ind = indep_coeffs(model, ind[2], spec['freq'])
         R.ind = ind
+    if mode == 'refine':
+        # refinement: a default-tolerance solve (tol0 = 1e-6, emg3d's default configuration) whose result
+        # is handed back as the starting field of the observed solve with another tol
+        rf = spec.get('refine') or {}
+        with np.errstate(all='ignore'):
+            supplied = emg3d.solve(model, sfield, tol=rf.get('tol0', 1e-6), verb=-1, **rf.get('cfg0', {}))
     if mode == 'prev':
         supplied = emg3d.Field(grid, prev.field.copy(), frequency=spec['freq'])
     if mode == 'good_nonpec':
@@ -803,6 +809,28 @@ def resolve_block():
     return [out[k] for k in order]
 
 
+def refinement_block():
+    """Deterministic 'refinement' block: solve with the default tolerance 1e-6, hand the result back as
+    efield with tol in {1e-8, 1e-10} (and the looser 1e-4 as control: NOTHING DONE is right there), for
+    multigrid, multigrid with semicoarsening + line relaxation, and bicgstab; frequency and Laplace.
+    The already-good-enough pre-check must use the caller's tol."""
+    c0 = dict(sslsolver=False, cycle='F', semicoarsening=False, linerelaxation=False, nu_init=0, nu_pre=2,
+              nu_coarse=1, nu_post=2, clevel=-1, tol=1e-6, maxit=50, return_info=True, always_return=False)
+    cfgs = [c0, dict(c0, semicoarsening=True, linerelaxation=True),
+            dict(c0, sslsolver='bicgstab', semicoarsening=True, linerelaxation=True)]
+    fdom = dict(shape=[4, 4, 4], hx=[1, 2, 1, 1.5], hy=[1, 1, 2, 1], hz=[2, 1, 1, 1], aniso=0, has_mu=False,
+                has_eps=False, freq=1.0, np_seed=31, src_exp=0)
+    sdom = dict(fdom, shape=[8, 4, 4], hx=[1, 1, 1.5, 2, 2, 1.5, 1, 1], aniso=3, has_mu=True, freq=-2.0, np_seed=32)
+    out = []
+    for k, tol in enumerate((1e-8, 1e-10, 1e-4)):
+        for j, cfg in enumerate(cfgs):
+            for sp in (fdom, sdom):
+                out.append((dict(sp, refine={'tol0': 1e-6}),
+                            dict(cfg, tol=tol, return_info=((j + k) % 2 == 0), always_return=(j == 1)),
+                            'refine', None))
+    return out
+
+
 def regime_block():
     """Deterministic block over the option classes of the coefficient glue between Model/Field and the
     solver: {frequency, Laplace} x {epsilon_r none/given} x {mu_r none/given} x {isotropic, HTI, VTI,
@@ -855,7 +883,7 @@ def fixed_cases():
         out.append((dict(s0, nonpec={'face': face, 'which': which}), c0, 'good_nonpec'))
         out.append((dict(s1, nonpec={'face': face, 'which': which}),
                     dict(c0, sslsolver='bicgstab', tol=1e-4, return_info=False), 'good_nonpec'))
-    for spec_r, cfg_r, mode_r, _ in resolve_block()[:8] + regime_block():
+    for spec_r, cfg_r, mode_r, _ in resolve_block()[:8] + regime_block() + refinement_block():
         out.append((spec_r, cfg_r, mode_r))
     out.append((s0, dict(c0, maxit=1), 'fresh'))
     out.append((s0, dict(c0, maxit=2, semicoarsening=1213, linerelaxation=56), 'bad'))
@@ -894,7 +922,7 @@ def brief(spec, cfg, mode):
 
 
 def correspondence(ctx):
-    n = 2400 if ctx.thorough else 340
+    n = 2400 if ctx.thorough else 320
     cases = gen_cases(ctx, n)
     dis, runs, hist, seen = [], [], {}, set()
     prop_hits = []
@@ -1000,7 +1028,7 @@ def nonpec_block():
 def targeted(ctx):
     s0 = fixed_cases()[0][0]
     c0 = fixed_cases()[0][1]
-    out = regime_block() + resolve_block() + nonpec_block() + [(s0, c0, 'zero_supplied', None), (s0, dict(c0, always_return=True), 'zero_supplied', None),
+    out = refinement_block() + regime_block() + resolve_block() + nonpec_block() + [(s0, c0, 'zero_supplied', None), (s0, dict(c0, always_return=True), 'zero_supplied', None),
            (s0, c0, 'zero_fresh', None)]
     for ssl in SOLVERS:
         for cyc in ('F', None):
